@@ -506,6 +506,10 @@ func (i If) byteCode(srcsel int, fl flags.Pass, cr compResult) bytecode.Type {
 		*cr.DS = append(*cr.DS, value.Nil)
 		instr = bytecode.New(bytecode.PUSH) | bytecode.EncodeSrc(0, bytecode.AddrDS, ix)
 		*cr.CS = append(*cr.CS, instr)
+
+		// the true case might never fall through (explicit return), but the
+		// false case always leaves nil on the stack
+		dest = bytecode.EncodeSrc(srcsel, bytecode.AddrStck, 0)
 	}
 
 	// patch the JMPF
@@ -624,7 +628,20 @@ func pushingWhile(w While, srcsel int, fl flags.Pass, cr compResult) bytecode.Ty
 	body := w.Body.byteCode(0, fl.Data().Pass(flags.WithDiscard(false)), cr)
 
 	if body.Src0() == bytecode.AddrInv {
-		panic("while body result is invalid in non-discarding while")
+		// the body never falls through (it always returns), there is no jump
+		// back, the only way to get to the end is the initial condition failing
+		// with nil on the stack
+		endAddr := len(*cr.CS)
+		if returning {
+			instr = bytecode.New(bytecode.RET) | bytecode.EncodeSrc(0, bytecode.AddrStck, 0)
+			*cr.CS = append(*cr.CS, instr)
+		}
+		(*cr.CS)[initJmpFAddr] |= bytecode.EncodeSrc(1, bytecode.AddrImm, endAddr-initJmpFAddr)
+
+		if returning {
+			return bytecode.EncodeSrc(srcsel, bytecode.AddrInv, 0)
+		}
+		return bytecode.EncodeSrc(srcsel, bytecode.AddrStck, 0)
 	}
 
 	jumpBack := bodyAddr
